@@ -176,7 +176,7 @@ theorem lookup_filter {β : Type} (q : Bytes × β → Bool) (k : Bytes) (d : Li
       · simp [hq, lookup]
       · have hn : lookup k d = none := (lookup_none_iff k d).2 hnd.1
         have hq' : q (k, v) = false := by simpa using hq
-        simp only [hq', lookup, if_true, Option.bind_some]
+        simp only [hq', lookup, if_true, Option.bind_some, Bool.false_eq_true, if_false]
         rw [ih hnd.2, hn]; rfl
     · by_cases hq : q (k', v) = true
       · simp only [hq, if_true, lookup, e, if_false]; exact ih hnd.2
@@ -391,5 +391,104 @@ theorem lookup_finishTerms (d : List (Bytes × List (Nat × Nat))) (h : (d.map (
   cases lookup k d with
   | none => rfl
   | some cs => cases hc : cs.isEmpty <;> simp [hc]
+
+/-! ### Synonym ids (pass 1) -/
+
+/-- Every synonym term of thesaurus `n` seen by pass 1, in visiting order. -/
+def synList (b : Batch) (n : Name) : List Bytes :=
+  b.flatMap (fun d => ((synFields d).filter (fun f => f.name = n)).flatMap (fun f => f.defs.flatMap (·.rhs)))
+
+theorem synIds_eq (b : Batch) (n : Name) : synIds b n = (synList b n).foldl getOrDefine [] := by
+  unfold synIds synList
+  rw [List.foldl_flatMap]
+  congr 1
+  funext acc d
+  rw [List.foldl_flatMap, List.foldl_filter]
+  congr 1
+  funext acc f
+  by_cases h : f.name = n
+  · simp only [h, if_true, decide_true]
+    rw [List.foldl_flatMap]
+  · simp only [h, if_false, decide_false]
+    rfl
+
+theorem mem_synIds (b : Batch) (n : Name) (s : Bytes) : s ∈ synIds b n ↔ s ∈ synList b n := by
+  rw [synIds_eq, MergeL.mem_foldl_getOrDefine]; simp
+
+theorem synIds_nodup (b : Batch) (n : Name) : (synIds b n).Nodup := by
+  rw [synIds_eq]; exact MergeL.nodup_foldl_getOrDefine _ _ List.nodup_nil
+
+theorem synIdOf_eq_fieldIdOf (ids : List Bytes) (s : Bytes) : synIdOf ids s = fieldIdOf ids s := rfl
+
+theorem synIdOf_get {ids : List Bytes} {s : Bytes} (h : s ∈ ids) : ids[synIdOf ids s]? = some s :=
+  MergeL.getD_fieldIdOf ids s h
+
+theorem synIdOf_lt {ids : List Bytes} {s : Bytes} (h : s ∈ ids) : synIdOf ids s < ids.length := by
+  have := synIdOf_get h
+  by_cases hl : synIdOf ids s < ids.length
+  · exact hl
+  · rw [List.getElem?_eq_none (by omega)] at this; cases this
+
+theorem synIdOf_inj {ids : List Bytes} {s s' : Bytes} (h : s ∈ ids) (h' : s' ∈ ids)
+    (e : synIdOf ids s = synIdOf ids s') : s = s' := by
+  have h1 := synIdOf_get h
+  have h2 := synIdOf_get h'
+  rw [e, h2] at h1
+  exact (Option.some.inj h1).symm
+
+/-- The id → term table `(ids.zipIdx).map swap`. -/
+def tableOf (ids : List Bytes) : List (Nat × Bytes) := (ids.zipIdx).map (fun p => (p.2, p.1))
+
+theorem lookup_zipIdx_swap (ids : List Bytes) (k j : Nat) :
+    lookup (k + j) ((ids.zipIdx k).map (fun p => (p.2, p.1))) = ids[j]? := by
+  induction ids generalizing k j with
+  | nil => rfl
+  | cons a as ih =>
+    rw [List.zipIdx_cons, List.map_cons]
+    simp only [lookup]
+    cases j with
+    | zero => simp
+    | succ j =>
+      have : ¬ (k + (j + 1) = k) := by omega
+      simp only [this, if_false, List.getElem?_cons_succ]
+      have e : k + (j + 1) = (k + 1) + j := by omega
+      rw [e]; exact ih (k + 1) j
+
+theorem lookup_tableOf (ids : List Bytes) (j : Nat) : lookup j (tableOf ids) = ids[j]? := by
+  have := lookup_zipIdx_swap ids 0 j
+  rw [Nat.zero_add] at this; exact this
+
+theorem tableOf_ids (ids : List Bytes) : (tableOf ids).map (·.1) = List.range' 0 ids.length := by
+  unfold tableOf
+  rw [List.map_map]
+  exact List.zipIdx_map_snd 0 ids
+
+theorem tableOf_syns (ids : List Bytes) : (tableOf ids).map (·.2) = ids := by
+  unfold tableOf
+  rw [List.map_map]
+  exact List.zipIdx_map_fst 0 ids
+
+theorem lookup_tableOf_synIdOf {ids : List Bytes} {s : Bytes} (h : s ∈ ids) :
+    lookup (synIdOf ids s) (tableOf ids) = some s := by
+  rw [lookup_tableOf]; exact synIdOf_get h
+
+/-! ### `buildThes` -/
+
+/-- The events of pass 2 for thesaurus `n`: one per definition, in document,
+    field, definition order. -/
+def evs (ids : List Bytes) (b : Batch) (n : Name) : List Ev :=
+  b.zipIdx.flatMap (fun p => (synDefs p.1 n).map (fun df => (df.lhs, df.rhs.map (fun s => (synIdOf ids s, p.2)))))
+
+theorem buildThes_eq (b : Batch) (n : Name) :
+    buildThes b n =
+      { terms := finishTerms (runEvs (evs (synIds b n) b n) []), table := tableOf (synIds b n) } := by
+  unfold buildThes finishTerms runEvs evs tableOf
+  simp only []
+  congr 3
+  rw [List.foldl_flatMap]
+  congr 1
+  funext acc p
+  unfold synDefs
+  rw [List.foldl_map, List.foldl_flatMap]
 
 end Zap.SynL
